@@ -217,12 +217,15 @@ def oracle(spec):
     if not fails:
         na = copy.deepcopy(net)
         ea = eb = None
+        # both at tightened solver tolerances: the JSON paths perturb the inputs by 1e-15, and at the default tolerances two
+        # runs from such inputs may stop one iteration apart (differences of the order of the tolerance, not of the storage)
+        rerun_opts = {} if v["path"] == "pickle" else dict(oracles.TIGHT)
         try:
-            netgen.run(na, spec)
+            netgen.run(na, spec, **rerun_opts)
         except Exception as e:
             ea = e
         try:
-            netgen.run(loaded, spec)
+            netgen.run(loaded, spec, **rerun_opts)
         except Exception as e:
             eb = e
         from pandapipes.pf.pipeflow_setup import PipeflowNotConverged
